@@ -319,7 +319,7 @@ Proof.
   { subst C. destruct (hcomment h); [apply render_starts_sp|apply nl_not_ident]. }
   assert (HD : items_ok (D ++ C) (10 :: tail) /\ not_extending ident_char (render_items (D ++ C) ++ 10 :: tail)).
   { subst D. destruct (hdesc h) as [d|]; [|split; [exact HC|exact HsC]].
-    destruct Hd as ((t & Ht & Hty & Hlx) & _ & Hcn). rewrite Ht. subst C. rewrite Hcn. cbn [comment_items app].
+    destruct Hd as ((t & Ht & Hty & Hlx) & _ & Hcn & _). rewrite Ht. subst C. rewrite Hcn. cbn [comment_items app].
     split; [|apply render_starts_sp]. cbn [items_ok]. unfold tok_lx, ctyp in Hlx. rewrite Hty in Hlx.
     split; [exact Hlx|]. split; [|exact I]. right. reflexivity. }
   destruct HD as [HD HsD].
